@@ -111,6 +111,9 @@ func (e *Engine) verifyFunction(fn *ssa.Function, spec *FuncSpec, sweep bool) *F
 			}
 		}
 	}
+	for _, g := range e.specs.Globals {
+		st.ghost[g.Name] = sortVal(c.sc.declare("gg."+g.Name+"!0", g.Sort), g.Sort)
+	}
 	fr.entrySt = st.clone()
 	entry := st.clone()
 	c.lockInit = map[string][][2]string{}
@@ -298,9 +301,17 @@ func (c *FnCtx) atReturn(fr *Frame, ex exitInfo, idx, total int) {
 
 // ---------------------------------------------------------------- ghost code
 
+// inTopScope: the frame is the function under verification or a closure of it inlined into it.
+func (c *FnCtx) inTopScope(fr *Frame) bool {
+	if fr == c.top {
+		return true
+	}
+	return fr != nil && fr.fn.Parent() != nil && c.top != nil && fr.fn.Parent() == c.top.fn
+}
+
 func (c *FnCtx) runGhostAt(bc *blockCtx, a Anchor) {
 	c.runGhostAtState(bc.fr, bc.st, a)
-	if c.spec == nil || bc.fr != c.top {
+	if c.spec == nil || !c.inTopScope(bc.fr) {
 		return
 	}
 	for _, as := range c.spec.Asserts {
@@ -338,6 +349,9 @@ func (c *FnCtx) bindCallVars(env *Env, bc *blockCtx) {
 	for k, v := range c.retRes {
 		env.vars[k] = v
 	}
+	for i, v := range c.callArgs {
+		env.vars[fmt.Sprintf("$a%d", i)] = v
+	}
 }
 
 func anchorString(a Anchor) string {
@@ -367,7 +381,7 @@ func anchorMatch(decl, at Anchor) bool {
 }
 
 func (c *FnCtx) runGhostAtState(fr *Frame, st *State, a Anchor) {
-	if c.spec == nil || fr != c.top {
+	if c.spec == nil || !c.inTopScope(fr) {
 		return
 	}
 	for _, u := range c.spec.Unfolds {
@@ -557,6 +571,30 @@ type modTarget struct {
 
 func (c *FnCtx) modTargets(env *Env, exprs []*Expr, pos string) []modTarget {
 	var out []modTarget
+	// expand footprints fp(NAME)
+	var expanded []*Expr
+	for _, m := range exprs {
+		if m.Op == "call" && m.Name == "fp" && len(m.Args) == 1 && m.Args[0].Op == "id" {
+			found := false
+			pkgs := []string{"ext"}
+			if env.pkg != nil {
+				pkgs = append([]string{env.pkg.Path()}, pkgs...)
+			}
+			for _, pk := range pkgs {
+				if es, ok := c.eng.specs.Footprints[pk][m.Args[0].Name]; ok {
+					expanded = append(expanded, es...)
+					found = true
+					break
+				}
+			}
+			if !found {
+				c.contractStale("modifies", pos, fmt.Errorf("unknown footprint %s", m.Args[0].Name), nil)
+			}
+			continue
+		}
+		expanded = append(expanded, m)
+	}
+	exprs = expanded
 	for _, m := range exprs {
 		func() {
 			defer func() {
@@ -668,11 +706,17 @@ func (c *FnCtx) havocTargets(st *State, ts []modTarget) {
 				st.ghost[t.name] = sortVal(c.sc.fresh("mod."+t.name, srt), srt)
 			}
 		case "array":
-			for n, s := range c.heapSorts {
-				if strings.HasPrefix(n, t.prefix) {
-					c.heapHavoc(st, n, s)
+			var ns []string
+			for n := range c.heapSorts {
+				if strings.Contains(n, t.prefix) {
+					ns = append(ns, n)
 				}
 			}
+			sort.Strings(ns)
+			for _, n := range ns {
+				c.heapHavoc(st, n, c.heapSorts[n])
+			}
+			st.wild = append(st.wild, t.prefix)
 		case "chan":
 			// a nil channel has no state: chan(nil) modifies nothing
 			for _, nm := range []string{"CH:closed", "CH:waited"} {
@@ -690,13 +734,78 @@ func (e *Engine) ghostGlobalSort(name string) (string, bool) {
 	return "", false
 }
 
+// frameFormula: "every pre-existing location of heap array n outside the declared modifies
+// set has its entry value", over the variables r (object) and k (element index).
+// ok=false when the array is exempt (declared wholesale, lock state).
+func (c *FnCtx) frameFormula(fr *Frame, n, now string, targets []modTarget, r, k string) (string, bool) {
+	entry := c.top.entrySt
+	was, has := entry.heap[n]
+	if !has {
+		was = sym(n + "!0")
+	}
+	if strings.HasPrefix(n, "LK:") || strings.HasPrefix(n, "ONCE:") {
+		return "", false
+	}
+	var allowed []string
+	twoLevel := strings.HasPrefix(n, "E:") || strings.HasPrefix(n, "MV:") || strings.HasPrefix(n, "MP:")
+	for _, t := range targets {
+		switch t.kind {
+		case "field":
+			if n == t.prefix || strings.HasPrefix(n, t.prefix+".") {
+				allowed = append(allowed, "(= "+r+" "+t.ref+")")
+			}
+		case "ghostfield":
+			if n == t.prefix {
+				allowed = append(allowed, "(= "+r+" "+t.ref+")")
+			}
+		case "elems":
+			if n == t.prefix || strings.HasPrefix(n, t.prefix+".") {
+				allowed = append(allowed, "(and (= "+r+" "+t.ref+") (<= "+t.lo+" "+k+") (< "+k+" "+t.hi+"))")
+			}
+		case "map":
+			mv, mp, mc := mapNames(t.mt)
+			if n == mp || n == mc || n == mv || strings.HasPrefix(n, mv+".") {
+				allowed = append(allowed, "(= "+r+" "+t.ref+")")
+			}
+		case "array":
+			if strings.Contains(n, t.prefix) {
+				return "", false
+			}
+		case "chan":
+			if n == "CH:closed" || n == "CH:waited" {
+				allowed = append(allowed, "(and (= "+r+" "+t.ref+") (not (= "+t.ref+" 0)))")
+			}
+		}
+	}
+	var goal string
+	if twoLevel {
+		goal = "(= (select (select " + now + " " + r + ") " + k + ") (select (select " + was + " " + r + ") " + k + "))"
+	} else {
+		goal = "(= (select " + now + " " + r + ") (select " + was + " " + r + "))"
+	}
+	pre := sAnd("(<= 0 "+r+")", "(<= "+r+" "+entry.alloc+")", sNot(sOr(allowed...)))
+	return sImp(pre, goal), true
+}
+
+func (c *FnCtx) entryTargets(fr *Frame, spec *FuncSpec) []modTarget {
+	if c.frameTargets != nil {
+		return c.frameTargets
+	}
+	entry := c.top.entrySt
+	env := c.newEnv(c.top, entry, entry)
+	env.entryPar = true
+	c.frameTargets = c.modTargets(env, spec.Modifies, spec.Pos)
+	if c.frameTargets == nil {
+		c.frameTargets = []modTarget{}
+	}
+	return c.frameTargets
+}
+
 // frameCheck: at a return of a function under contract, every pre-existing
 // heap location outside the declared modifies set is unchanged.
 func (c *FnCtx) frameCheck(fr *Frame, st *State, cond string, spec *FuncSpec, suffix string) {
 	entry := c.top.entrySt
-	env := c.newEnv(fr, entry, entry)
-	env.entryPar = true
-	targets := c.modTargets(env, spec.Modifies, spec.Pos)
+	targets := c.entryTargets(fr, spec)
 	var names []string
 	for n := range st.heap {
 		names = append(names, n)
@@ -711,58 +820,13 @@ func (c *FnCtx) frameCheck(fr *Frame, st *State, cond string, spec *FuncSpec, su
 		if now == was {
 			continue
 		}
-		if strings.HasPrefix(n, "LK:") || strings.HasPrefix(n, "ONCE:") {
-			continue // lock state: see lockBalance; once flags are monotone ghost state
-		}
-		_ = c.heapSorts[n]
 		r := c.sc.fresh("frame.r", "Int")
-		var allowed []string
-		whole := false
-		twoLevel := strings.HasPrefix(n, "E:") || strings.HasPrefix(n, "MV:") || strings.HasPrefix(n, "MP:")
-		k := ""
-		if twoLevel {
-			k = c.sc.fresh("frame.k", "Int")
-		}
-		for _, t := range targets {
-			switch t.kind {
-			case "field":
-				if n == t.prefix || strings.HasPrefix(n, t.prefix+".") {
-					allowed = append(allowed, "(= "+r+" "+t.ref+")")
-				}
-			case "ghostfield":
-				if n == t.prefix {
-					allowed = append(allowed, "(= "+r+" "+t.ref+")")
-				}
-			case "elems":
-				if n == t.prefix || strings.HasPrefix(n, t.prefix+".") {
-					allowed = append(allowed, "(and (= "+r+" "+t.ref+") (<= "+t.lo+" "+k+") (< "+k+" "+t.hi+"))")
-				}
-			case "map":
-				mv, mp, mc := mapNames(t.mt)
-				if n == mp || n == mc || n == mv || strings.HasPrefix(n, mv+".") {
-					allowed = append(allowed, "(= "+r+" "+t.ref+")")
-				}
-			case "array":
-				if strings.HasPrefix(n, t.prefix) {
-					whole = true
-				}
-			case "chan":
-				if n == "CH:closed" || n == "CH:waited" {
-					allowed = append(allowed, "(= "+r+" "+t.ref+")")
-				}
-			}
-		}
-		if whole {
+		k := c.sc.fresh("frame.k", "Int")
+		f, ok := c.frameFormula(fr, n, now, targets, r, k)
+		if !ok {
 			continue
 		}
-		var goal string
-		if twoLevel {
-			goal = "(= (select (select " + now + " " + r + ") " + k + ") (select (select " + was + " " + r + ") " + k + "))"
-		} else {
-			goal = "(= (select " + now + " " + r + ") (select " + was + " " + r + "))"
-		}
-		pre := sAnd("(<= 0 "+r+")", "(<= "+r+" "+entry.alloc+")", sNot(sOr(allowed...)))
-		c.oblige("frame", n+suffix, cond, sImp(pre, goal), spec.Pos, "frame: only declared locations of "+n+" change", nil)
+		c.oblige("frame", n+suffix, cond, f, spec.Pos, "frame: only declared locations of "+n+" change", nil)
 	}
 	// ghost variables
 	for k, v := range st.ghost {
@@ -868,8 +932,10 @@ func (c *FnCtx) applyContract(bc *blockCtx, spec *FuncSpec, cc *ssa.CallCommon, 
 	} else if spec.PkgPath != "" {
 		pkg = c.eng.tpkgs[spec.PkgPath]
 	}
-	if bc.fr == c.top {
+	if c.inTopScope(bc.fr) {
+		c.callArgs = args
 		c.runGhostAt(bc, Anchor{Kind: "before", Callee: short, Occ: occ})
+		c.callArgs = nil
 	}
 	pre := bc.st.clone()
 	mkEnv := func(st *State) *Env {
@@ -915,6 +981,22 @@ func (c *FnCtx) applyContract(bc *blockCtx, spec *FuncSpec, cc *ssa.CallCommon, 
 			continue
 		}
 		if ts := c.typeSpecOf(v.Ty); ts != nil {
+			if bc.fr.fn.Pkg != nil && ts.PkgPath != bc.fr.fn.Pkg.Pkg.Path() {
+				// encapsulation: the object's fields are not accessible from this package, so its
+				// invariant can only be broken while one of its own methods runs; it is assumed here
+				c.assumed["invariant of "+ts.Name+" (encapsulated: holds between calls of its methods)"] = true
+				for _, inv := range ts.Invariants {
+					if cexcept[inv.Label] {
+						continue
+					}
+					e2 := mkEnv(bc.st)
+					e2.vars["self"] = v
+					if t, err := e2.evalAssume(inv.E); err == nil {
+						c.sc.assert(sImp(bc.reach, t))
+					}
+				}
+				continue
+			}
 			for i, inv := range ts.Invariants {
 				if cexcept[inv.Label] {
 					continue
@@ -1007,14 +1089,16 @@ func (c *FnCtx) applyContract(bc *blockCtx, spec *FuncSpec, cc *ssa.CallCommon, 
 		}
 	}
 	c.ghostEvent(bc, "call:"+short)
-	if bc.fr == c.top {
+	if c.inTopScope(bc.fr) {
 		if res.K == KTuple {
 			c.callRes = res.Fs
 		} else if res.K != KUnit {
 			c.callRes = []Val{res}
 		}
+		c.callArgs = args
 		c.runGhostAt(bc, Anchor{Kind: "after", Callee: short, Occ: occ})
 		c.callRes = nil
+		c.callArgs = nil
 	}
 	return res
 }
